@@ -106,6 +106,10 @@ def mechanism(f, exp, got):
     """mechanism key from structural features of the first difference"""
     le, lg = _log_of(exp), _log_of(got)
     gen = '+gen' if 'nested-generator' in f['feat'] else ''
+    if 'orig must be a raised exception' in json.dumps(got) and 'orig must be a raised exception' not in json.dumps(exp):
+        # PyUnstable_Exc_PrepReraiseStar() refused the group caught by an (outer) except*: it has no traceback because
+        # the inner except* that created it skipped add_traceback
+        return 'except-star-regroup-of-group-without-traceback', {}
     i = 0
     while i < len(le) and i < len(lg) and le[i] == lg[i]:
         i += 1
